@@ -62,6 +62,11 @@ class Clock:
         self.t += 0.25
         return self.t
 
+    def align(self):
+        """Move to the start of the next whole second: the next three ticks
+        (x.25, x.5, x.75) then fall into ONE second."""
+        self.t = float(int(self.t) + 1)
+
 
 class FileWorld:
     """A config dir on tmpfs whose every mtime is stamped from a Clock.
